@@ -90,7 +90,6 @@ func runCond(c *Case) *Obs {
 		if op[0].(string) == "wait" {
 			L.gates[num(op[1])] = newGate()
 			L.pos[num(op[1])] = op[3].(string)
-			ctxs.get(num(op[2]))
 		}
 	}
 	for _, op := range c.Ops {
